@@ -66,6 +66,10 @@ func fetchAndCachePackages(pwd string, urls []string) ([]string, error) {
 // src can be a local file path for URL to a git repository
 func fetchAndCachePackage(src string) (string, error) {
 	u, err := url.Parse(src)
+	if (err != nil || u.Scheme == "") && src != "" && !strings.Contains(src, "://") {
+		// a plain path, not a URL: '#', '?' and '%' are ordinary characters in a directory name
+		return filepath.Abs(src)
+	}
 	if err != nil {
 		return "", err
 	}
